@@ -78,6 +78,20 @@ int main() {
                 std::cout << "info " << (info == 0 ? 0 : 1) << "\n";
                 if (info == 0) std::cout << "D " << vstr(D) << "\nL " << mstr(L) << "\nx " << vstr(x) << "\n";
             }
+            else if (c == "ldl.denseseq") {
+                // one factorisation object, compute() called on a sequence of matrices: each call must report on ITS matrix
+                long n = t.nat(); long up = t.nat(); long cnt = t.nat();
+                std::vector<DMat> As; for (long q = 0; q < cnt; q++) As.push_back(t.mat(n, n));
+                DVec b = t.vec(n);
+                dense::LDLTNoPivot<DMat, Eigen::Lower> fl; dense::LDLTNoPivot<DMat, Eigen::Upper> fu;
+                for (long q = 0; q < cnt; q++) {
+                    int info; DVec D, x;
+                    if (up == 0) { fl.compute(As[(size_t) q]); info = (int) fl.info(); if (info == 0) { D = fl.vectorD(); x = fl.solve(b); } }
+                    else { fu.compute(As[(size_t) q]); info = (int) fu.info(); if (info == 0) { D = fu.vectorD(); x = fu.solve(b); } }
+                    std::cout << "info " << (info == 0 ? 0 : 1) << "\n";
+                    if (info == 0) std::cout << "D " << vstr(D) << "\nx " << vstr(x) << "\n";
+                }
+            }
             else if (c == "ldl.densem") {
                 // multi-column right-hand side through the public solve() and solveInPlace()
                 long n = t.nat(); long up = t.nat(); long k = t.nat();
